@@ -333,8 +333,52 @@ func vh_C03_fold_typed() {
 	}
 }
 
+// Untyped constant operands under a typed context ("var z int64 = 1<<63 - 1":
+// cfg gives the sub-expressions the type of the destination before folding):
+// the folding stays exact on go/constant values and constOverflow must NOT
+// reject an intermediate value - only the final value has to fit, which the
+// conversion checks. (My first version of constOverflow rejected these valid
+// programs; a sub-agent noticed; this obligation pins the repaired behaviour.)
+func vh_C03_fold_context() {
+	k := reflect.Kind(vhKind)
+	act := vhTypedActs[vhOp]
+	x, y := vBigNondet("x"), vBigNondet("y")
+	typ := &itype{cat: intT, rtype: vTypeOfKind(vhKind)}
+	n := &node{interp: vhNewInterp(), typ: typ, action: act}
+	n.child = []*node{vhConstNode(vConstOfBig(x)), vhConstNode(vConstOfBig(y))}
+	var want vBig
+	switch act {
+	case aAdd:
+		want = vBigAdd(x, y)
+	case aSub:
+		want = vBigSub(x, y)
+	case aMul:
+		want = vBigMul(x, y)
+	case aShl:
+		s := vNondetInt("s")
+		vAssume(s >= 0)
+		vAssume(s <= 70)
+		sc := vConcretizeInt(s, 0, 70)
+		// the count has been converted to uint by the shift rule
+		n.child[1] = &node{rval: reflect.ValueOf(uint(sc)), typ: &itype{cat: uintT, rtype: vTypeOfKind(int(reflect.Uint))}}
+		want = vBigMul(x, vBigPow2(sc))
+	case aNeg:
+		n.child = n.child[:1]
+		want = vBigNeg(x)
+	default:
+		return
+	}
+	_ = k
+	vReach("C03.context")
+	constOp[act](n)
+	err := constOverflow(n)
+	vAssert("C03.context.intermediate-not-rejected", err == nil)
+	got, ok := n.rval.Interface().(constant.Value)
+	vAssert("C03.context.exact", ok && vConstKindIs(got, int(constant.Int)) && vBigEq(vBigOfConst(got), want))
+}
+
 var vhRegistry = map[string]func(){
-	"vh_C03_fold_typed": vh_C03_fold_typed,
+	"vh_C03_fold_typed": vh_C03_fold_typed, "vh_C03_fold_context": vh_C03_fold_context,
 	"vh_C03_repr_int": vh_C03_repr_int, "vh_C03_repr_other": vh_C03_repr_other, "vh_C03_fold": vh_C03_fold,
 	"vh_C03_shift": vh_C03_shift, "vh_C03_bitwise": vh_C03_bitwise, "vh_C03_materialise": vh_C03_materialise, "vv_models": vv_models,
 }
